@@ -203,9 +203,11 @@ CHECKS = {
              "expression of the record parsers is out of range, for every line; C19_parseLine_preserves: every record (incl. every forged I record) leaves a state "
              "satisfying the invariant; C19_document_total / C19_doParse_total: hence for every byte string the decoder returns without a panic; C19_year_window: yy<70 -> 20yy else 19yy inverts year%100 on 1970..2069; "
              "C19_calendar_window: for each of the 36525 days of the window the model's day-number -> civil date -> day-number is the identity with a valid "
-             "date. The whole decoder/encoder (incl. garbage dates and int64 wrap) is mirrored and compared bit for bit with Go on generated and mutated "
+             "date; C19_position_fields_recombine / C19_position_resolution / C19_position_clamped: the degree and thousandth-of-minute fields of m = floor(60000|x|) (clamped) "
+             "recombine to m exactly, and in exact arithmetic the value read back is within 1/60000 of a degree of x (towards zero), or the range limit beyond the range. "
+             "The whole decoder/encoder (incl. garbage dates and int64 wrap) is mirrored and compared bit for bit with Go on generated and mutated "
              "documents; the oracle checks totality, whole fixes, and encode-then-decode to 1/60000 degree, whole seconds and clamped altitude.",
-        note=NOTE_COMMON + "Partial: the fix round trip to format resolution (float arithmetic) is oracle-checked, not proved.",
+        note=NOTE_COMMON + "Partial: the float64 evaluation of 60000*x and of the quotient read back (the position arithmetic itself is proved over the rationals) is mirrored and oracle-checked, not proved.",
     ),
     "C18": dict(
         technique="Lean 4 theorems about the exact formatting contract (half-unit rounding error, trimming removes only a trailing run) + text-exact correspondence of the WKT/GeoJSON encoders + per-number oracle in exact rational arithmetic",
